@@ -93,3 +93,41 @@ Proof.
   destruct (eval fe cfg env [] e rs0) as [v r|er l r]; auto. destruct er; auto; try contradiction.
 Qed.
 Print Assumptions C01_run_program.
+From Coq Require Import ZArith Bool List String.
+Require Import X.Base.Num X.Base.Value X.Syn.Ast X.Sem.Prim X.Sem.Sem X.BC.Instr X.BC.Compiler X.BC.VM
+               X.BC.CompileProofs X.BC.RunProofs X.BC.SemFacts.
+Import ListNotations.
+
+(* ---- lines to add to Props/C01.v ---- *)
+(* Tie of the model compiler to compiler/compiler.go BY REGENERATION: gen/GenSchemes.v holds, for every
+   XNode method, emitLoop / emitCond / emitPush and the tail of Compile, the statements of the current
+   source as terms of the scheme DSL of BC/Schemes.v; interp_code runs them as the Go compiler does. *)
+Require Import X.BC.Schemes X.gen.GenSchemes X.Bridge.BrSchemes.
+
+(* every statement of those functions is one of the shapes the translator knows *)
+Theorem C01_schemes_recognised : recognised GenSchemes.schemes = true.
+Proof. exact schemes_recognised. Qed.
+Print Assumptions C01_schemes_recognised.
+
+(* one unfolding step, any node kind: the regenerated scheme of the node's method, with the nested
+   c.compile calls answered as the model compiler answers them, yields the model compiler's code *)
+Theorem C01_model_compiler_is_source_schemes :
+  forall rec mapenv e, node_compilable e = true ->
+  (forall y, In y (children e) -> rec y = Some (compile_node mapenv y)) ->
+  interp_code GenSchemes.schemes rec mapenv e = Some (compile_node mapenv e).
+Proof. exact schemes_step. Qed.
+Print Assumptions C01_model_compiler_is_source_schemes.
+
+(* by induction on the tree: the compiler obtained from the regenerated schemes alone (gen_compile: the
+   interpreter calling itself for the nested c.compile) is the model compiler, with the result cast *)
+Theorem C01_model_compiler_is_source_schemes_closed :
+  forall d mapenv c e, (esize e <= d)%nat -> compilable e = true ->
+  gen_compile_program GenSchemes.schemes d mapenv c e = Some (compile_program mapenv c e).
+Proof. exact gen_compile_program_is_compile_program. Qed.
+Print Assumptions C01_model_compiler_is_source_schemes_closed.
+
+Example C01_schemes_nonvacuous :
+  compilable scheme_ex = true /\ esize scheme_ex = 20%nat /\
+  gen_compile_program GenSchemes.schemes 20 true CastFloat64 scheme_ex = Some (compile_program true CastFloat64 scheme_ex) /\
+  List.length (compile_program true CastFloat64 scheme_ex) = 53%nat.
+Proof. vm_compute. repeat split; reflexivity. Qed.
